@@ -16,8 +16,9 @@ Hypothesis R_sym : forall a b, R a b -> R b a.
 Hypothesis R_trans : forall a b c, R a b -> R b c -> R a c.
 Hypothesis R_bin : forall k a a' b b', R a a' -> R b b' -> R (binf C k a b) (binf C k a' b').
 Hypothesis R_un : forall k a a', R a a' -> R (unf C k a) (unf C k a').
-Variable flagged : nat -> Prop.
-Hypothesis flagged_assoc : forall k, flagged k -> forall a b c, R (binf C k (binf C k a b) c) (binf C k a (binf C k b c)).
+Variable flagged : dbop -> Prop.
+Hypothesis flagged_assoc : forall o, flagged o -> bcomm o = true ->
+  forall a b c, R (binf C (bidx o) (binf C (bidx o) a b) c) (binf C (bidx o) a (binf C (bidx o) b c)).
 
 Local Notation ddenN rho := (dden C (nlook rho)).
 Local Notation ndenN rho := (nden C (nlook rho)).
